@@ -7,6 +7,7 @@ import (
 	"encoding/json"
 	"fmt"
 	"math/big"
+	"regexp"
 	"sort"
 	"strconv"
 	"strings"
@@ -207,6 +208,8 @@ var c16Texts = []string{
 	"\x00", "\x01", "\x07", "\b", "\t", "\n", "\v", "\f", "\r", "\x1b", "\x1f", "\x7f", "a\x01b", "line1\nline2", "tab\there",
 	"\x1b[31mred\x1b[0m", "é", "héllo", "日本語", "😀", "\u2028", "\ufffd", "\u00a0",
 	"\xff", "\xc3", "a\xffb", "\xc3\x28", "\xed\xa0\x80", "\xf4\x90\x80\x80", "\xc0\x80", "\"\xff", "\xff\"", "\n\xff\xfe", "é\"\xe9",
+	"\xe0\xa0\x80", "\xe0\x9f\xbf", "\xed\x9f\xbf", "\xee\x80\x80", "\xf0\x90\x80\x80", "\xf0\x8f\xbf\xbf", "\xf4\x8f\xbf\xbf",
+	"\xf5\x80\x80\x80", "\xc2\x80", "\xc1\xbf", "\xdf\xbf", "\xe2\x82", "\xe2\x82\xac", "\x80", "\xbf", "fal\u017fe", "\u212a",
 	"{", "}", "{\"a\": 1}", "[1,2]", ",", ":", ", ", "\": \"", "/", "</script>", "'", "1 2", " 1", "1 ", "１",
 }
 
@@ -476,6 +479,20 @@ func c16Gen(r *Rand, tier string) []string {
 			}
 		}
 		rec(nil)
+		// every 2-byte string; 3- and 4-byte UTF-8 boundary sequences (escape table + UTF-8 DFA vs utf8.Valid)
+		for a := 0; a < 256; a++ {
+			for b := 0; b < 256; b++ {
+				out = append(out, fmt.Sprintf("json 0 1 . 0,2 %s", Hex([]byte{byte(a), byte(b)})))
+			}
+		}
+		for _, a := range []byte{0xe0, 0xe1, 0xec, 0xed, 0xee, 0xef, 0xf0, 0xf1, 0xf3, 0xf4, 0xf5} {
+			for b := 0x70; b < 0xd0; b++ {
+				for _, c := range []byte{0x7f, 0x80, 0xbf, 0xc0} {
+					out = append(out, fmt.Sprintf("json 0 1 . 0,3 %s", Hex([]byte{a, byte(b), c})))
+					out = append(out, fmt.Sprintf("json 0 1 . 0,4 %s", Hex([]byte{a, byte(b), c, 0x80})))
+				}
+			}
+		}
 		// all pairs of bytes from a set of structurally dangerous ones, as capture and as name
 		danger := []byte{0x00, 0x01, 0x08, 0x0a, 0x1f, 0x20, '"', '\\', '/', 'u', '0', 0x7f, 0x80, 0xc3, 0xa9, 0xff}
 		for _, a := range danger {
@@ -489,6 +506,12 @@ func c16Gen(r *Rand, tier string) []string {
 	}
 	return out
 }
+
+var (
+	c16reNum     = regexp.MustCompile(`^[0-9]+(\.[0-9]+)?$`)
+	c16reLead0   = regexp.MustCompile(`^0[0-9]`)
+	c16reNumLike = regexp.MustCompile(`^[-+.0-9eE]+$`)
+)
 
 func c16Stats(cases []string) map[string]int {
 	st := map[string]int{}
@@ -529,6 +552,24 @@ func c16Stats(cases []string) map[string]int {
 			}
 		}
 		ix := c16ParseInts(f[4])
+		for i := 0; i+1 < len(ix); i += 2 {
+			if ix[i] < 0 || ix[i+1] > len(line) || ix[i] > ix[i+1] {
+				continue
+			}
+			g := line[ix[i]:ix[i+1]]
+			switch {
+			case g == "":
+				st["capture.empty"]++
+			case c16reNum.MatchString(g) && c16reLead0.MatchString(g):
+				st["capture.leadingZeroNumeral"]++
+			case c16reNum.MatchString(g):
+				st["capture.jsonNumber"]++
+			case strings.EqualFold(g, "true") || strings.EqualFold(g, "false"):
+				st["capture.boolWord"]++
+			case c16reNumLike.MatchString(g):
+				st["capture.numberLikeButString"]++
+			}
+		}
 		if len(ix)%2 == 1 {
 			st["indices.odd"]++
 		}
